@@ -696,7 +696,8 @@ func ruleV4(c *Ctx) {
 					// overrides inside the clause: `if op == K`
 					ast.Inspect(clause, func(m ast.Node) bool {
 						if ifs, ok := m.(*ast.IfStmt); ok {
-							if cb, ok := ifs.Cond.(*ast.BinaryExpr); ok && cb.Op == token.EQL {
+							if cb, ok := ifs.Cond.(*ast.BinaryExpr); ok && (cb.Op == token.EQL || cb.Op == token.NEQ) {
+								// `if op == K { special } else { bridge }` and `if op != K { bridge }`: K does not go through the bridge
 								if tn, _, nm, ok := typeOfConst(info, cb.Y); ok && tn == fromT {
 									excluded[nm] = true
 								}
